@@ -232,6 +232,60 @@ def shared_loader_probe(tag, variant):
     return out
 
 
+def add_clash(rng, ast):
+    """A derived type that declares a child whose name or attribute an inherited child already
+    has: written out, the type has two children of one name / attribute -- a schema error -- so the
+    'extends' form must be refused as well.  -> (ast with the clash, label) or None"""
+    import copy
+    bytype = {t["name"].lower(): t for t in ast["types"]}
+    cands = []
+    for t in ast["types"]:
+        b = bytype.get(t["extends"].lower()) if t.get("extends") else None
+        inherited = []
+        while b is not None:
+            inherited.extend(b["items"])
+            b = bytype.get(b["extends"].lower()) if b.get("extends") else None
+        if inherited:
+            cands.append((t, inherited))
+    if not cands:
+        return None
+    t, inherited = rng.choice(cands)
+    it = rng.choice(inherited)
+    attr = it.get("attribute") or refload.derive_attr(it["name"])
+    if not attr:
+        return None
+    wild = it["name"] in ("*", "+")
+    what = "%s-%s" % ("wildcard" if wild else "named", "section" if it["kind"] in ("section", "multisection") else "key")
+    new = {"kind": rng.choice(["key", "multikey"]), "name": "zcvclash", "attribute": attr, "required": False,
+           "handler": None, "datatype": "string"}
+    how = "attribute"
+    if not wild and rng.random() < 0.3:
+        new["name"], new["attribute"], how = it["name"], "zcvclashattr", "name"
+    out = copy.deepcopy(ast)
+    for t2 in out["types"]:
+        if t2["name"] == t["name"]:
+            t2["items"] = t2["items"] + [new] if rng.random() < 0.5 else [new] + t2["items"]
+    return out, "%s-of-inherited-%s" % (how, what)
+
+
+def clash_check(ast):
+    """-> [(sig, detail)]: the extends form of a schema whose expansion is refused must be refused"""
+    ZConfig = loadcheck.zc()
+    verdicts = []
+    for a in (compose.expand_extends(ast), ast):
+        try:
+            loadcheck.load_schema_xml(gen.render_schema(a))
+            verdicts.append("ok")
+        except ZConfig.ConfigurationError:
+            verdicts.append("reject")
+        except Exception as e:  # noqa
+            verdicts.append("internal:" + type(e).__name__)
+    if verdicts[0] == "reject" and verdicts[1] != "reject":
+        return [("composition-changes-schema-verdict:reject-expanded-%s-extends" % verdicts[1],
+                 "the written-out schema is refused, the one using extends is not")], verdicts
+    return [], verdicts
+
+
 def _without_url(d):
     if isinstance(d, dict):
         return {k: _without_url(v) for k, v in d.items() if k != "url"}
@@ -243,6 +297,8 @@ def _without_url(d):
 def evaluate(case):
     if "shared_loader_probe" in case:
         return [failure(sig, case, d) for sig, d in shared_loader_probe(*case["shared_loader_probe"])]
+    if "clash" in case:
+        return [failure(sig, case, d) for sig, d in clash_check(case["clash"])[0]]
     comp = rebuild(case)
     res = compare_case(case["schema"], comp, [case["text"]])
     out = []
@@ -275,6 +331,15 @@ def run_shard(spec):
         if rng.random() < 0.25:
             boost_rekey(rng, ast)
             counters["schema:boosted-rekeyed-defaults"] += 1
+        cl = add_clash(rng, ast)
+        if cl is not None:
+            res.evaluations += 1
+            fl, verdicts = clash_check(cl[0])
+            counters["clash:%s:expanded-%s" % (cl[1], verdicts[0])] += 1
+            if verdicts[0] == "reject":
+                res.nontrivial(key=["clash", gen.render_schema(cl[0])])
+            for sig, d in fl:
+                res.fail(sig, {"clash": cl[0]}, d)
         sm = refload.compile_schema(ast)
         texts = [gen.gen_text(rng, sm, f) for f in (0, 0, 0, 1, 1, 2)]
         # package names come round again within a process, each time with other contents
@@ -307,6 +372,8 @@ def check_coverage(tier, c):
     problems = []
     for k in ("feature:extends", "feature:components:diamond", "feature:prefix:relative-nested",
               "feature:prefix:relative-on-sectiontype-element", "feature:prefix:relative-package",
+              "feature:prefix:empty", "clash:attribute-of-inherited-wildcard-section:expanded-reject",
+              "clash:attribute-of-inherited-named-key:expanded-reject", "clash:name-of-inherited-named-key:expanded-reject",
               "expanded:ok", "expanded:reject"):
         if c.get(k, 0) < 20:
             problems.append("class %s has only %d cases" % (k, c.get(k, 0)))
